@@ -35,11 +35,13 @@ CliOK(sc, ob) ==
           /\ ob.stdout_len = 0                                   \* no partial output:
           /\ ob.file_sha = ob.pre_sha                            \* the output file is absent, or still what it was before
           /\ (ob.file_exists = 1 <=> ob.pre_sha # "")
-\* batch mode: one document per matching file, exit status 0 iff the directory could be converted
+\* batch mode: one document per matching file whose output can be written; a file that cannot be written is reported
+\* and makes the status non-zero, the others are still converted (b.n_blocked = matching files whose output path is taken)
 BuildOK(b, ob) ==
-  /\ ob.exit = (IF b.missing_dir = 1 THEN 1 ELSE 0)
-  /\ (b.missing_dir = 0 => /\ ob.n_written = b.n_matching
-                           /\ ob.n_correct = b.n_matching       \* each equals the library's default conversion
+  /\ ob.exit = (IF b.missing_dir = 1 \/ b.n_blocked > 0 THEN 1 ELSE 0)
+  /\ (b.missing_dir = 0 => /\ ob.n_written = b.n_matching - b.n_blocked
+                           /\ ob.n_correct = b.n_matching - b.n_blocked       \* each equals the library's default conversion
                            /\ ob.n_extra = 0)
-  /\ (b.missing_dir = 1 => ob.n_written = 0 /\ ob.diag_len > 0)
+  /\ (b.missing_dir = 1 => ob.n_written = 0)
+  /\ (ob.exit # 0 => ob.diag_len > 0)
 =============================================================================
